@@ -15,24 +15,22 @@ clean_rc=$(demo)
 git apply $OUT/patch_$X.diff || { echo "patch does not apply"; cd /; git -C /repo worktree remove --force $WT; exit 2; }
 mut_rc=$(demo)
 suite=$(timeout 900 /venv/bin/python -m pytest -q -p no:cacheprovider --timeout=900 2>&1 | tail -1)
-cd /; git -C /repo worktree remove --force $WT
+cd /
 echo "demo clean rc=$clean_rc  mutated rc=$mut_rc  suite: $suite"
 ok=1
 [ "$clean_rc" = 0 ] || ok=0
 [ "$mut_rc" != 0 ] || ok=0
 case "$suite" in *"$BASE"*) ;; *) ok=0;; esac
-if [ $ok = 0 ]; then echo "NOT CONFIRMED"; exit 3; fi
-# run the checks against the mutation in /repo
-[ -z "$(git -C /repo status --porcelain)" ] || { echo "/repo not clean"; exit 2; }
-git -C /repo apply $OUT/patch_$X.diff
+if [ $ok = 0 ]; then echo "NOT CONFIRMED"; git -C /repo worktree remove --force $WT; exit 3; fi
+# run the checks against the mutated checkout (the scratch worktree of /repo's HEAD with the patch applied;
+# VERIF_REPO points the checks at it, so concurrently running work on /repo itself is not disturbed)
 res=""
 for Q in $P "$@"; do
-  o=$(cd /verif && timeout 3000 ./check $Q --tier quick 2>&1 | grep -E "^(VIOLATION|OK|KNOWN)" | head -3)
+  o=$(cd /verif && VERIF_REPO=$WT timeout 3000 ./check $Q --tier quick 2>&1 | grep -E "^(VIOLATION|OK|KNOWN)" | head -3)
   echo "[$Q] $o"
   res="$res [$Q] $o;"
 done
-git -C /repo checkout -- .
-[ -z "$(git -C /repo status --porcelain)" ] || echo "WARNING: /repo not clean after revert"
+git -C /repo worktree remove --force $WT
 mkdir -p $DEST
 cp $OUT/patch_$X.diff $DEST/patch.diff; cp $OUT/demo_$X.py $DEST/demo.py
 python3 - "$P" "$X" "$res" "$suite" <<'PY'
@@ -41,7 +39,7 @@ P,X,res,suite=sys.argv[1:5]
 try: m=json.load(open(f'/tmp/wt/out-{P}/meta_{X}.json'))
 except Exception: m={}
 m.update({"property":P,"confirmed":{"suite_line_with_patch":suite,"demo_exit_clean":0,"demo_nonzero_with_patch":True,
-  "ran":"scratch worktree: demo on clean tree, git apply, demo, full pytest; then git -C /repo apply, ./check --tier quick, git checkout"},
+  "ran":"scratch worktree of /repo HEAD: demo on clean tree, git apply, demo, full pytest; then VERIF_REPO=<that worktree> ./check --tier quick; worktree removed"},
   "check_result_quick":res})
 json.dump(m,open(f'/verif/seeded/{P}-{X}/meta.json','w'),indent=1)
 PY
